@@ -20,7 +20,7 @@ func main() {
 		return
 	}
 	if len(os.Args) > 1 && os.Args[1] == "prof" {
-		sc := bfs.Make("c14/stale2")
+		sc := bfs.Make("c14/two-stale2")
 		f, _ := os.Create("/tmp/c14prof.out")
 		pprof.StartCPUProfile(f)
 		ops := sc.Ops()
